@@ -401,6 +401,22 @@ class _Run:
         """Apply one application-side operation; returns the number of focus / alignment requests it made."""
         lb = self.lb
         k = op["op"]
+        if k in ("set_focus", "focus_pos") and op.get("bad") and self.wlen():
+            # a position that does not exist (before the first item, counted from the end like a list index, or past the last
+            # item): the documented answer is IndexError; whatever the answer, the list shown afterwards is judged as always
+            n = self.wlen()
+            pos = -1 - (op.get("pos", 0) % n) if op["bad"] == "neg" else n + op.get("pos", 0) % 3
+            try:
+                if k == "set_focus":
+                    lb.set_focus(pos, op.get("from"))
+                else:
+                    lb.focus_position = pos
+            except IndexError:
+                self.log.add(k, [pos, "refused"])
+                self.res.probe("nonexistent_position_refused")
+                return 0
+            self.log.add(k, [pos, "accepted"])
+            return 1
         if k == "set_focus":
             if self.wlen():
                 pos = op.get("pos", 0) % self.wlen()
@@ -651,6 +667,14 @@ class _Run:
         rtext = [row_text(r) for r in R]
         T = len(R)
         self.renders += 1
+        if self.scen["config"]["walker"] != "custom" and fi is not None and len(lb.body) <= 64:
+            # the two bundled walkers ARE lists: the concatenation the property speaks of is the list order, whatever
+            # their get_next / get_prev / get_focus say (the model above reads the list through those)
+            want = list(lb.body)
+            if len(want) != len(items) or any(a is not b[0] for a, b in zip(want, items)) or items[fi][0] is not lb.body.get_focus()[0]:
+                self.violate("C07.2", "rows-are-not-a-contiguous-slice [walker order differs from list order]", f"step {i} size {size}: walker protocol yields items {[want.index(w) if w in want else None for w, _ in items]} of the list of {len(want)}, focus position {lb.body.get_focus()[1]!r}")
+                return None
+            res.probe("walker_order_checked_against_list")
         if canv.rows() != rows or len(got) != rows:
             self.violate("C07.2", "canvas-has-wrong-number-of-rows", f"step {i} size {size}: canvas rows {canv.rows()}")
             return None
@@ -815,6 +839,8 @@ class ListBoxEngine(Engine):
         "driven": ["batching of requests / edits / input before the resolving call", "which call resolves a pending focus (render, keypress, mouse_event)", "resize placement", "render focus flag"],
     }
     required_probes = (
+        "nonexistent_position_refused",
+        "walker_order_checked_against_list",
         "pending_focus_resolved_by_keypress",
         "pending_focus_resolved_by_render",
         "pending_focus_resolved_by_mouse_event",
@@ -892,8 +918,12 @@ class ListBoxEngine(Engine):
                 ops.append({"op": "mouse", "button": rng.choice([4, 5]), "x": rng.randrange(30), "y": rng.randrange(12)})
             elif q < 0.57:
                 ops.append({"op": "set_focus", "pos": rng.randrange(12), "from": rng.choice([None, "above", "below"])})
+                if rng.random() < 0.12:
+                    ops[-1]["bad"] = rng.choice(["neg", "over"])
             elif q < 0.60:
                 ops.append({"op": "focus_pos", "pos": rng.randrange(12)})
+                if rng.random() < 0.12:
+                    ops[-1]["bad"] = rng.choice(["neg", "over"])
             elif q < 0.65:
                 ops.append({"op": "valign", "v": rng.choice(VALIGNS)})
             elif q < 0.75:
